@@ -270,20 +270,24 @@ func init() {
 			case 2:
 				do(4, []int{0, 1, 2}, false, -1, st.Bound)
 			case 3:
-				do(5, []int{1, 2}, false, 8, st.Bound)
+				do(5, []int{1, 2}, false, 5, st.Bound)
 			case 4:
 				do(4, []int{0, 1}, false, 5, st.Bound)
 			case 5: // five vertices (heap positions >= 3) with zero-weight edges
 				do(5, []int{0, 1}, false, 4, st.Bound)
 			case 6:
 				do(5, []int{0, 1}, false, 5, st.Bound)
+			case 7: // six vertices, sparse
+				do(6, []int{0, 1}, false, 5, st.Bound)
+			case 8:
+				do(6, []int{0, 1}, false, 4, st.Bound)
 			}
 		},
 		Replay: replayGraph(checkDijkstra),
 	}
 	Plans["C18"] = map[string][]Step{
-		"quick":    {{Tier: "graph-sp", Size: 0}, {Tier: "graph-sp", Size: 1, Bound: 1}, {Tier: "graph-sp", Size: 4, Bound: 1}, {Tier: "graph-sp", Size: 5, Bound: 1}},
-		"thorough": {{Tier: "graph-sp", Size: 0}, {Tier: "graph-sp", Size: 1, Bound: 1}, {Tier: "graph-sp", Size: 2, Bound: 1}, {Tier: "graph-sp", Size: 4, Bound: 2}, {Tier: "graph-sp", Size: 3, Bound: 0}, {Tier: "graph-sp", Size: 6, Bound: 1}},
+		"quick":    {{Tier: "graph-sp", Size: 0}, {Tier: "graph-sp", Size: 1, Bound: 1}, {Tier: "graph-sp", Size: 4, Bound: 1}, {Tier: "graph-sp", Size: 8, Bound: 0}},
+		"thorough": {{Tier: "graph-sp", Size: 0}, {Tier: "graph-sp", Size: 1, Bound: 1}, {Tier: "graph-sp", Size: 2, Bound: 1}, {Tier: "graph-sp", Size: 4, Bound: 2}, {Tier: "graph-sp", Size: 3, Bound: 0}, {Tier: "graph-sp", Size: 5, Bound: 1}, {Tier: "graph-sp", Size: 6, Bound: 1}, {Tier: "graph-sp", Size: 7, Bound: 0}},
 	}
 }
 
